@@ -85,7 +85,27 @@ MUTS = [
      "ramp = self.ramp if self.ramp is not None else None", ["C12", "C06"]),
     ("c12_runtime_not_converted", "eaopack/assets.py", "min_downtime = self.convert_to_timegrid_freq(self.min_downtime, \"min_downtime\")",
      "min_downtime = int(np.ceil(self.min_downtime))", ["C12", "C06"]),
+    ("c17_cost_scaling", "eaopack/stoch_lin_prog.py", "optim_problem.c = np.hstack((optim_problem.c, myc[If]/(nS+1)))",
+     "optim_problem.c = np.hstack((optim_problem.c, myc[If]/(nS)))", ["C17"]),
+    ("c17_present_not_decoupled", "eaopack/stoch_lin_prog.py", "    Ap[:,If]         = 0.\n", "    pass\n", ["C17"]),
+    ("c17_robust_constraint_flipped", "eaopack/optimization.py", "constraints = constraints + [-myc.T @ x >= DCF_min ]",
+     "constraints = constraints + [-myc.T @ x <= DCF_min ]", ["C17"]),
+    ("c16_scale_b_not_normalised", "eaopack/assets.py", "op.A  = sp.hstack((op.A, np.reshape(-op.b.copy(), (len(op.b), 1))/self.norm_scale))",
+     "op.A  = sp.hstack((op.A, np.reshape(-op.b.copy(), (len(op.b), 1))))", ["C16"]),
+    ("c16_fix_costs_full_grid", "eaopack/assets.py", "op.c = np.hstack((op.c, self.fix_costs*self.timegrid.restricted.dt.sum()))",
+     "op.c = np.hstack((op.c, self.fix_costs*self.timegrid.dt.sum()))", ["C16"]),
+    ("c16_struct_external_nodal_rows_kept", "eaopack/portfolio.py", "op = self.portfolio.setup_optim_problem(prices, timegrid, skip_nodes = self.node_names)",
+     "op = self.portfolio.setup_optim_problem(prices, timegrid, skip_nodes = [])", ["C16", "C01"]),
+    ("c13_weight_dropped", "eaopack/assets.py", "                    rr['disp_factor'] = weight*rr['disp_factor']\n", "                    rr['disp_factor'] = rr['disp_factor']\n", ["C13", "C01"]),
+    ("c13_periodic_cost_mean", "eaopack/optimization.py", "self.c[leading] = self.c[vars].sum()", "self.c[leading] = self.c[vars].mean()", ["C13"]),
+    ("c11_drop_tz", "eaopack/serialization.py", "                '__tz__'   : mytz,", "                '__tz__'   : None,", ["C11"]),
+    ("c11_pop_min_take", "eaopack/serialization.py", "        res.pop('asset_names',None)", "        res.pop('asset_names',None)\n        res.pop('min_take',None)", ["C11"]),
+    ("c10_restricted_cached", "eaopack/assets.py", "        self.timegrid.set_restricted_grid(self.start, self.end, self.freq) # restricted timegrid for asset lifetime and own freq",
+     "        if not hasattr(self.timegrid, 'restricted'): self.timegrid.set_restricted_grid(self.start, self.end, self.freq) # restricted timegrid for asset lifetime and own freq", ["C10", "C08"]),
+    ("c10_keep_discount_factors", "eaopack/basic_classes.py", "        d = (1.+wacc)**(1./365.) # convert interest rate to daily\n",
+     "        if hasattr(self, 'discount_factors'): return\n        d = (1.+wacc)**(1./365.) # convert interest rate to daily\n", ["C10", "C02", "C09"]),
 ]
+
 
 
 
